@@ -13,6 +13,7 @@ def run(run):
     nr = machine.check_random(run, FAMILY, 1500 if quick else 20000, "MachineRand: seeded random programs")
     run.cov["random_programs"] = nr
     n += nr
+    n += flow_traces(run, quick)
     run.cov["traces_validated_against_impl"] = n
     run.cov["evaluations"] = n
     run.cov["distinct_nontrivial"] = n
@@ -21,4 +22,57 @@ def run(run):
     run.assumptions += machine.ASSUMPTIONS
 
 
-replay = machine.replay
+EXTRA = [
+    # sources the generated families do not iterate over: sets and maps of strings, destructured entries, strings
+    "def r = []; for s in <<'b', 'a', 'c', 'ab'>> do append(r, s) end; r",
+    "def r = []; for k in keys <<<'b' => 1, 'a' => 2, 'c' => 3>>> do append(r, k) end; r",
+    "def r = []; for v in <<<'b' => 1, 'a' => 2, 'c' => 3>>> do append(r, v) end; r",
+    "def r = []; for e in entries <<<3 => 'x', 1 => 'y', 2 => 'z'>>> do append(r, e) end; r",
+    "def r = []; for [k, v] in entries <<<3 => 'x', 1 => 'y', 2 => 'z'>>> do if k == 2 then continue; append(r, [v, k]) end; r",
+    "def r = []; for [a, b, c] in [[1, 2], [3, 4, 5], <<7, 6>>] do append(r, [a, b, c]) end; r",
+    "def r = []; for c in 'hello' do if c == 'l' then break; append(r, c) end; r",
+    "def r = []; for x in <<5, 3, 9, 1>> do for y in <<2, 1>> do if y == 2 then break; append(r, [x, y]) end end; r",
+    "def f(m) do for k in keys m do if m[k] == 2 then return k end; 'none' end; [f(<<<'q' => 2, 'p' => 2>>>), f(<<<1 => 1>>>)]",
+    "def i = 0; def r = []; while i < 5 do i += 1; if i % 2 == 0 then continue; if i > 4 then break; append(r, i) end; r",
+    "def l = [1]; for x in l do if x < 4 then append(l, x + 1) end; l",
+    "if 1 > 2 then 'a' elif 2 > 3 then 'b' elif 3 > 2 then 'c' elif TRUE then 'd' else 'e'",
+    "def f(x) do if x then return 1; 2 end; [f(TRUE), f(FALSE)]",
+    "do for x in 5 do x end catch all 'not iterable' end",
+    "do if 1 then 2 end catch all 'not boolean' end",
+    "do while 'x' do 1 end catch all 'not boolean' end",
+    "def f() do break end; do f() catch all 'stray' end",
+]
+
+
+def flow_traces(run, quick):
+    """binding B: every conditional, loop and function body the real evaluator runs (generated programs, the
+    repository's own test programs, the library code they call) validated by Flow_Trace.tla"""
+    import random
+    from . import flowtrace as ft
+    from .c05 import repo_test_programs
+    rng = random.Random(run.seed + 4)
+    gen = sorted(set(machine.SOURCES))
+    gen = rng.sample(gen, min(len(gen), 1500 if quick else 15000))
+    progs = [(machine.PRELUDE + g, False) for g in gen] + [(t, False) for t in EXTRA] + [(t, True) for t in repo_test_programs()]
+    events, metas = ft.record(progs)
+    stats = ft.validate(run, events, metas, "Flow_Trace: conditionals, loops and function bodies as the real evaluator runs them")
+    kinds = {}
+    for e in events:
+        if e["e"] == "enter":
+            kinds[e["c"]] = kinds.get(e["c"], 0) + 1
+        elif e["e"] == "coll":
+            kinds["for over " + e["kind"]] = kinds.get("for over " + e["kind"], 0) + 1
+    run.cov["flow_trace_events"] = len(events)
+    run.cov["flow_trace_constructs"] = kinds
+    run.cov["flow_trace_unchecked_orders"] = stats["unchecked"]
+    run.sample({"flow_trace": events[1:14], "of": metas[1][:200]})
+    return len(progs)
+
+
+def replay(run, case):
+    if case.get("kind") == "flowtrace":
+        from . import flowtrace as ft
+        events, metas = ft.record([(case["src"], True)])
+        ft.validate(run, events, metas, "Flow_Trace (replay)")
+        return
+    return machine.replay(run, case)
